@@ -64,6 +64,18 @@
 (* "slow" (1 KiB/s, burst 2 KiB: one 32 KiB chunk takes 30 s) is `tiny` with rates that make      *)
 (* the remaining pacing exceed the watchdog.                                                      *)
 (*                                                                                                *)
+(* Back-pressure: Stall(e) = end e stops draining (its receive window is full), a Write to it     *)
+(* parks until the end drains again, goes away, or the bridge closes the connection.  A failure   *)
+(* of the other end is then noticed only when the bridge touches that end again (the stalled end  *)
+(* sends something): until then nothing is demanded (Unnoticed).  Once a copier has noticed,      *)
+(* Close() must get through: dynamicSourceWriter only looks the forwarder up under sourceConnMu.  *)
+(* Holding that lock across the Write (named variant DevWriteLock) lets a parked t2s Write keep   *)
+(* Close() out for ever.                                                                          *)
+(*                                                                                                *)
+(* Routing table (cluster deployments): runBridgeLifecycle deletes the map entry, then removes    *)
+(* the routing entry and ignores a storage error (RouteFail).  Cleaning the routing entry first   *)
+(* and returning on its error (named variant DevRouteFirst) leaves the tunnel registered.         *)
+(*                                                                                                *)
 (* Configurations: Bridge_mc.cfg (as found, clauses in "or the named deviation happened" form),   *)
 (* Bridge_fixed.cfg (as the statement needs it, strict clauses), Bridge_live.cfg /                *)
 (* Bridge_live_fixed.cfg (liveness under weak fairness, as found / as needed), Bridge_gen.cfg     *)
@@ -82,22 +94,24 @@ CONSTANTS BUF,         \* copy buffer size (model scale, >= 3)
           DevNilFwd,   \* TRUE: goroutines read b.targetForwarder when they start (as found); FALSE: snapshot
           DevStaleSrc, \* TRUE: a replaced source connection is left open (as found); FALSE: it is closed
           DevSleepLimiter, \* TRUE: limiter waits cannot be cancelled by Close() (seeded variant); FALSE: WaitN(ctx)
+          DevWriteLock,    \* TRUE: target->source writes hold sourceConnMu (seeded variant); FALSE: lookup only
+          DevRouteFirst,   \* TRUE: routing cleanup first, return on its error (seeded variant); FALSE: map entry first
           Gen,         \* TRUE: generation mode (history kept)
           Emit         \* TRUE: print behaviours
 
 VARIABLES lim, tokens, paid,
           attached, endSt, avail, sent, delivered, rdOff, inflight, pc,
           armed, glitch, nfault, bridgeClosed, registered, nsend, ended,
-          endMode, rdErr,
+          endMode, rdErr, stalled, routeFail,
           replaced, oldClosed, rdgen,
           devLimErr, devStale, lost, misorder, crashed, dropped,
           hist
 
 vars == <<lim, tokens, paid, attached, endSt, avail, sent, delivered, rdOff, inflight, pc,
-          armed, glitch, nfault, bridgeClosed, registered, nsend, ended, endMode, rdErr, replaced, oldClosed, rdgen,
+          armed, glitch, nfault, bridgeClosed, registered, nsend, ended, endMode, rdErr, stalled, routeFail, replaced, oldClosed, rdgen,
           devLimErr, devStale, lost, misorder, crashed, dropped, hist>>
 view == <<lim, tokens, paid, attached, endSt, avail, sent, delivered, rdOff, inflight, pc,
-          armed, glitch, nfault, bridgeClosed, registered, nsend, ended, endMode, rdErr, replaced, oldClosed, rdgen,
+          armed, glitch, nfault, bridgeClosed, registered, nsend, ended, endMode, rdErr, stalled, routeFail, replaced, oldClosed, rdgen,
           devLimErr, devStale, lost, misorder, crashed, dropped>>
 
 Ends  == {"S", "T"}
@@ -131,6 +145,7 @@ Init == /\ lim \in Lims /\ tokens = Burst(lim) /\ paid = [d \in Dirs |-> 0]
         /\ pc = [d \in Dirs |-> "idle"]
         /\ armed = [e \in Ends |-> FALSE] /\ glitch = [e \in Ends |-> "no"] /\ nfault = 0
         /\ endMode = [e \in Ends |-> "plain"] /\ rdErr = [d \in Dirs |-> "none"]
+        /\ stalled = [e \in Ends |-> FALSE] /\ routeFail = FALSE
         /\ bridgeClosed = FALSE /\ registered = TRUE /\ nsend = 0 /\ ended = "none"
         /\ replaced = FALSE /\ oldClosed = FALSE /\ rdgen = 1
         /\ devLimErr = FALSE /\ devStale = FALSE /\ lost = [d \in Dirs |-> 0] /\ misorder = FALSE /\ crashed = FALSE /\ dropped = 0
@@ -143,7 +158,7 @@ NoH  == hist' = hist
 
 LimU   == UNCHANGED <<lim, tokens, paid>>
 CopU   == UNCHANGED <<sent, delivered, rdOff, inflight, pc, rdgen, rdErr>>
-FaultU == UNCHANGED <<armed, glitch, nfault>>
+FaultU == UNCHANGED <<armed, glitch, nfault, stalled, routeFail>>
 RepU   == UNCHANGED <<replaced, oldClosed>>
 DevU   == UNCHANGED <<devLimErr, devStale, lost, misorder, crashed, dropped>>
 
@@ -202,7 +217,7 @@ ErrorEnd(e, w) ==
 \* the next Write to end e accepts only part of the chunk and returns an error
 Arm(e) ==
   /\ Faults /\ nfault = 0 /\ ended = "none" /\ endSt[e] = "open" /\ registered /\ ~bridgeClosed
-  /\ armed' = [armed EXCEPT ![e] = TRUE] /\ nfault' = 1 /\ glitch' = glitch
+  /\ armed' = [armed EXCEPT ![e] = TRUE] /\ nfault' = 1 /\ glitch' = glitch /\ UNCHANGED <<stalled, routeFail>>
   /\ H([a |-> "arm", e |-> e])
   /\ LimU /\ CopU /\ RepU /\ DevU
   /\ UNCHANGED <<attached, endSt, avail, bridgeClosed, registered, nsend, ended, endMode>>
@@ -211,10 +226,32 @@ Arm(e) ==
 \* k = "tn": the next Read that has bytes returns them TOGETHER WITH a temporary timeout
 Glitch(e, k) ==
   /\ Faults /\ nfault = 0 /\ ended = "none" /\ endSt[e] = "open" /\ registered /\ ~bridgeClosed
-  /\ glitch' = [glitch EXCEPT ![e] = k] /\ nfault' = 1 /\ armed' = armed
+  /\ glitch' = [glitch EXCEPT ![e] = k] /\ nfault' = 1 /\ armed' = armed /\ UNCHANGED <<stalled, routeFail>>
   /\ H([a |-> "glitch", e |-> e, k |-> k])
   /\ LimU /\ CopU /\ RepU /\ DevU
   /\ UNCHANGED <<attached, endSt, avail, bridgeClosed, registered, nsend, ended, endMode>>
+
+\* end e stops draining what the bridge writes to it (back-pressure) / drains again
+Stall(e) ==
+  /\ Faults /\ nfault = 0 /\ ended = "none" /\ endSt[e] = "open" /\ registered /\ ~bridgeClosed /\ ~stalled[e]
+  /\ stalled' = [stalled EXCEPT ![e] = TRUE] /\ nfault' = 1
+  /\ H([a |-> "stall", e |-> e])
+  /\ LimU /\ CopU /\ RepU /\ DevU
+  /\ UNCHANGED <<attached, endSt, avail, bridgeClosed, registered, nsend, ended, endMode, armed, glitch, routeFail>>
+Unstall(e) ==
+  /\ stalled[e] /\ endSt[e] = "open" /\ ~bridgeClosed
+  /\ stalled' = [stalled EXCEPT ![e] = FALSE]
+  /\ H([a |-> "unstall", e |-> e])
+  /\ LimU /\ CopU /\ RepU /\ DevU
+  /\ UNCHANGED <<attached, endSt, avail, bridgeClosed, registered, nsend, ended, endMode, armed, glitch, nfault, routeFail>>
+
+\* the routing table's storage starts failing deletes (shared store unreachable)
+RouteFail ==
+  /\ Faults /\ nfault = 0 /\ registered /\ ~bridgeClosed /\ ~routeFail
+  /\ routeFail' = TRUE /\ nfault' = 1
+  /\ H([a |-> "routefail"])
+  /\ LimU /\ CopU /\ RepU /\ DevU
+  /\ UNCHANGED <<attached, endSt, avail, bridgeClosed, registered, nsend, ended, endMode, armed, glitch, stalled>>
 
 \* the source client re-opens the tunnel on a new connection (handleExistingBridge)
 ReplaceSource ==
@@ -298,7 +335,7 @@ Read(d) ==
            ELSE avail[ch] = <<>> /\ endSt[src] \in {"closed", "failed"}
         /\ ExitCopy(d) /\ UNCHANGED <<avail, rdOff, inflight, glitch, rdErr>>
   /\ H([a |-> "R", d |-> d])
-  /\ UNCHANGED <<lim, tokens, paid, attached, endSt, sent, delivered, armed, nfault, bridgeClosed, registered,
+  /\ UNCHANGED <<lim, tokens, paid, attached, endSt, sent, delivered, armed, nfault, stalled, routeFail, bridgeClosed, registered,
                  nsend, ended, endMode>> /\ RepU /\ DevU
 
 \* rateLimiter.WaitN(ctx, n)
@@ -349,7 +386,7 @@ Write(d) ==
         /\ Drop(d) /\ ExitCopy(d)
         /\ UNCHANGED <<delivered, endSt, armed, ended, misorder>>
      \/ \* short write with error: part of the chunk is taken, the connection is then broken
-        /\ ~bridgeClosed /\ endSt[dst] = "open" /\ armed[dst]
+        /\ ~bridgeClosed /\ endSt[dst] = "open" /\ armed[dst] /\ ~stalled[dst]
         /\ LET k == n \div 2 IN
            /\ delivered' = [delivered EXCEPT ![d] = @ + k]
            /\ misorder' = (misorder \/ rdOff[d] - n # delivered[d])
@@ -359,7 +396,7 @@ Write(d) ==
         /\ armed' = [armed EXCEPT ![dst] = FALSE]
         /\ ended' = IF ended = "none" THEN "error" ELSE ended
         /\ ExitCopy(d)
-     \/ /\ ~bridgeClosed /\ endSt[dst] = "open" /\ ~armed[dst]
+     \/ /\ ~bridgeClosed /\ endSt[dst] = "open" /\ ~armed[dst] /\ ~stalled[dst]    \* (parked while the end does not drain)
         /\ delivered' = [delivered EXCEPT ![d] = @ + n]
         /\ misorder' = (misorder \/ rdOff[d] - n # delivered[d])
         /\ inflight' = [inflight EXCEPT ![d] = 0]
@@ -368,13 +405,15 @@ Write(d) ==
         /\ rdErr' = [rdErr EXCEPT ![d] = "none"]
         /\ UNCHANGED <<endSt, armed, ended, lost>>
   /\ H([a |-> "W", d |-> d])
-  /\ UNCHANGED <<lim, tokens, paid, attached, avail, sent, rdOff, glitch, nfault, bridgeClosed, registered, nsend, endMode,
+  /\ UNCHANGED <<lim, tokens, paid, attached, avail, sent, rdOff, glitch, nfault, stalled, routeFail, bridgeClosed, registered, nsend, endMode,
                  devLimErr, devStale, crashed, dropped>> /\ RepU
 
 \* closeBridge(): the first copier goroutine that ends runs Bridge.Close() - the current source
 \* and target connections are closed (both ends observe closure), then the context is cancelled
+\* (seeded variant: Close() needs sourceConnMu, which a t2s Write parked on a non-draining source holds)
+LockHeld == DevWriteLock /\ pc["t2s"] = "write" /\ stalled["S"] /\ endSt["S"] = "open"
 CloseBridge ==
-  /\ ~bridgeClosed /\ \E d \in Dirs : pc[d] = "done"
+  /\ ~bridgeClosed /\ ~LockHeld /\ \E d \in Dirs : pc[d] = "done"
   /\ bridgeClosed' = TRUE
   /\ NoH
   /\ LimU /\ CopU /\ FaultU /\ RepU /\ DevU
@@ -382,7 +421,7 @@ CloseBridge ==
 
 \* Bridge.Close() called by someone else (server shutdown, quota enforcement)
 ExtClose ==
-  /\ ExtCloseOn /\ ~bridgeClosed /\ registered /\ ended = "none"
+  /\ ExtCloseOn /\ ~bridgeClosed /\ ~LockHeld /\ registered /\ ended = "none"
   /\ bridgeClosed' = TRUE /\ ended' = "bridge"
   /\ H([a |-> "extclose"])
   /\ LimU /\ CopU /\ FaultU /\ RepU /\ DevU
@@ -393,7 +432,10 @@ Unregister ==
   /\ registered
   /\ \/ attached /\ \A d \in Dirs : pc[d] = "done"
      \/ ~attached /\ bridgeClosed                       \* "bridge cancelled before target connection"
-  /\ registered' = FALSE
+  \* delete(tunnelBridges, id), then the routing entry (its storage error is ignored);
+  \* seeded variant: routing entry first, `return` on its error - the map entry stays
+  /\ registered' = (DevRouteFirst /\ routeFail)
+  /\ (~bridgeClosed => ~LockHeld)
   /\ bridgeClosed' = TRUE                                \* deferred bridge.Close()
   /\ NoH
   /\ LimU /\ CopU /\ FaultU /\ RepU /\ DevU
@@ -420,6 +462,8 @@ Env == \/ \E e \in Ends : \E c \in Classes : Send(e, c)
        \/ Attach
        \/ \E e \in Ends : \/ \E w \in {"plain", "data"} : CloseEnd(e, w) \/ ErrorEnd(e, w)
                           \/ Arm(e) \/ \E k \in {"t0", "tn"} : Glitch(e, k)
+                          \/ Stall(e) \/ Unstall(e)
+       \/ RouteFail
        \/ ReplaceSource \/ CloseOld \/ ExtClose
 Sys == (\E d \in Dirs : Copier(d)) \/ Refill \/ CloseBridge \/ Unregister \/ ReadyTimeout \/ MarkStale
 Next == Env \/ Sys
@@ -437,6 +481,7 @@ TypeOK == /\ lim \in Lims /\ tokens \in 0..BUF /\ attached \in BOOLEAN /\ bridge
                              /\ inflight[d] \in 0..BUF /\ paid[d] \in 0..BUF
           /\ \A e \in Ends : endSt[e] \in {"open", "closed", "failed"} /\ glitch[e] \in {"no", "t0", "tn"} /\ endMode[e] \in {"plain", "data"}
           /\ \A d \in Dirs : rdErr[d] \in {"none", "eof", "err"}
+          /\ \A e \in Ends : stalled[e] \in BOOLEAN
           /\ rdgen \in {1, 2} /\ ended \in {"none", "close", "error", "bridge"}
 
 \* what an end has received is a prefix of what the other end sent: every chunk is written at the
@@ -466,7 +511,7 @@ CanStep(d) == \/ pc[d] = "start"
 Stranded == rdgen = 2 /\ avail["s1"] # <<>>
 \* bytes discarded unread when the replaced connection was closed by the bridge
 Gone(d) == IF d = "s2t" THEN dropped ELSE 0
-Stuck(d) == /\ ended = "none" /\ ~(d = "s2t" /\ Stranded) /\ attached /\ ~bridgeClosed /\ ~OnOld(d) /\ pc[d] # "done" /\ endSt[Src(d)] # "failed"
+Stuck(d) == /\ ended = "none" /\ ~(d = "s2t" /\ Stranded) /\ ~stalled[Dst(d)] /\ attached /\ ~bridgeClosed /\ ~OnOld(d) /\ pc[d] # "done" /\ endSt[Src(d)] # "failed"
             /\ delivered[d] + lost[d] + Gone(d) < sent[d] /\ ~CanStep(d)
 Independent      == \A d \in Dirs : ~Stuck(d)
 IndependentKnown == devLimErr \/ Independent     \* limiter error + replacement: the rest of the old connection is never read
@@ -478,13 +523,16 @@ NoCrash == ~crashed
 
 \* ---- liveness (under Fair) ----------------------------------------------------------------------
 \* when either end closes or fails, the other end observes closure and the server forgets the tunnel
-ClosureSeen      == \A e \in Ends : (attached /\ endSt[e] # "open") ~> bridgeClosed
-Forgotten        == (attached /\ ended # "none") ~> ~registered
-ClosureSeenKnown == \A e \in Ends : (attached /\ endSt[e] # "open") ~> (bridgeClosed \/ (replaced /\ ~oldClosed))
-ForgottenKnown   == (attached /\ ended # "none") ~> (~registered \/ crashed \/ devStale \/ (replaced /\ ~oldClosed))
+\* a copier is parked writing to an end that does not drain and no copier has noticed anything yet:
+\* the bridge has had no occasion to see the other end go (nothing is demanded before it has)
+Unnoticed == (\E d \in Dirs : pc[d] = "write" /\ stalled[Dst(d)]) /\ \A d \in Dirs : pc[d] # "done"
+ClosureSeen      == \A e \in Ends : (attached /\ endSt[e] # "open") ~> (bridgeClosed \/ Unnoticed)
+Forgotten        == (attached /\ ended # "none") ~> (~registered \/ Unnoticed)
+ClosureSeenKnown == \A e \in Ends : (attached /\ endSt[e] # "open") ~> (bridgeClosed \/ Unnoticed \/ (replaced /\ ~oldClosed))
+ForgottenKnown   == (attached /\ ended # "none") ~> (~registered \/ Unnoticed \/ crashed \/ devStale \/ (replaced /\ ~oldClosed))
 \* a tunnel whose target never comes is forgotten as well (30 s timer)
 NeverAttached == (~attached) ~> (attached \/ ~registered)
 \* bytes sent while both ends stay open are eventually delivered: the copiers always catch up again
-CatchUp      == []<>(Stranded \/ ~attached \/ ended # "none" \/ (replaced /\ ~oldClosed) \/ \A d \in Dirs : delivered[d] + Gone(d) = sent[d])
-CatchUpKnown == []<>(Stranded \/ ~attached \/ ended # "none" \/ (replaced /\ ~oldClosed) \/ devLimErr \/ \A d \in Dirs : delivered[d] + Gone(d) = sent[d])
+CatchUp      == []<>((\E e \in Ends : stalled[e]) \/ Stranded \/ ~attached \/ ended # "none" \/ (replaced /\ ~oldClosed) \/ \A d \in Dirs : delivered[d] + Gone(d) = sent[d])
+CatchUpKnown == []<>((\E e \in Ends : stalled[e]) \/ Stranded \/ ~attached \/ ended # "none" \/ (replaced /\ ~oldClosed) \/ devLimErr \/ \A d \in Dirs : delivered[d] + Gone(d) = sent[d])
 =============================================================================
